@@ -1,6 +1,7 @@
 package main
 
 import (
+	"golang.org/x/tools/go/ssa"
 	"go/types"
 	"strings"
 )
@@ -54,7 +55,7 @@ func init() {
 			pt := types.NewPointer(bt)
 			ref := vc.allocRaw(st, "pooled")
 			wl, rd := sel(st.H["Wlen"], ref), sel(st.H["Gh"], ref)
-			vc.assume(and(app("bvsle", bvLit(64, 0), rd), app("bvsle", rd, wl), app("bvslt", wl, bvLit(64, 1<<40))))
+			vc.assume(implies(c.n.Reach, and(app("bvsle", bvLit(64, 0), rd), app("bvsle", rd, wl), app("bvslt", wl, bvLit(64, 1<<40)))))
 			st.H["Wfail"] = vc.def(stateSorts["Wfail"], sto(st.H["Wfail"], ref, "false"), "Wfail")
 			return &SV{T: anyT, C: []string{vc.eng.typeID(pt), ref, bvLit(64, 0)}, Cands: []types.Type{pt}, Exact: true}
 		case strings.HasSuffix(name, "zlibPool"):
@@ -88,7 +89,18 @@ func init() {
 		vc, st := c.vc, c.n.St
 		vc.note(aCopyN)
 		dst, src, n := c.args[0], c.args[1], c.args[2].C[0]
-		dref, isBuf, ok1 := c.resolveRW(dst, "Write", 0)
+		discard := false
+		if call, ok := c.in.(ssa.CallInstruction); ok && len(call.Common().Args) == 3 {
+			if u, ok := call.Common().Args[0].(*ssa.UnOp); ok {
+				if g, ok := u.X.(*ssa.Global); ok && g.String() == "io.Discard" {
+					discard = true // io.Discard: the copied bytes go nowhere
+				}
+			}
+		}
+		dref, isBuf, ok1 := "", true, true
+		if !discard {
+			dref, isBuf, ok1 = c.resolveRW(dst, "Write", 0)
+		}
 		sref, _, ok2 := c.resolveRW(src, "Read", 0)
 		res := c.fn.Signature.Results()
 		if !ok1 || !ok2 || !isBuf {
@@ -100,14 +112,16 @@ func init() {
 		w := vc.freshS(SBV64, "ncopied")
 		err := vc.freshError(st, "cperr")
 		pos := vc.defS(SBV64, sel(st.H["Spos"], sref), "spos")
-		vc.assume(and(app("bvsle", bvLit(64, 0), w),
+		vc.assume(implies(c.n.Reach, and(app("bvsle", bvLit(64, 0), w),
 			implies(app("bvsle", n, bvLit(64, 0)), and(eq(w, bvLit(64, 0)), not(isErr(err)))),
 			implies(app("bvsgt", n, bvLit(64, 0)), and(app("bvsle", w, n), eq(not(isErr(err)), eq(w, n)))),
-			app("bvsle", app("bvadd", pos, w), sel("Send", sref))))
-		wl := vc.defS(SBV64, sel(st.H["Wlen"], dref), "wlen")
-		row := vc.copyCells(SBV8, sel(st.H["Wout"], dref), wl, sel("Sin", sref), pos, w, -1)
-		st.H["Wout"] = vc.def(stateSorts["Wout"], sto(st.H["Wout"], dref, row), "Wout")
-		st.H["Wlen"] = vc.def(stateSorts["Wlen"], sto(st.H["Wlen"], dref, app("bvadd", wl, w)), "Wlen")
+			app("bvsle", app("bvadd", pos, w), sel("Send", sref)))))
+		if !discard {
+			wl := vc.defS(SBV64, sel(st.H["Wlen"], dref), "wlen")
+			row := vc.copyCells(SBV8, sel(st.H["Wout"], dref), wl, sel("Sin", sref), pos, w, -1)
+			st.H["Wout"] = vc.def(stateSorts["Wout"], sto(st.H["Wout"], dref, row), "Wout")
+			st.H["Wlen"] = vc.def(stateSorts["Wlen"], sto(st.H["Wlen"], dref, app("bvadd", wl, w)), "Wlen")
+		}
 		st.H["Spos"] = vc.def(stateSorts["Spos"], sto(st.H["Spos"], sref, app("bvadd", pos, w)), "Spos")
 		c.setFail(sref, isErr(err))
 		return tupleSV(res, &SV{T: types.Typ[types.Int64], C: []string{w}}, err)
@@ -155,7 +169,7 @@ func init() {
 		vc.eng.declared(vc, "sane:"+s2)
 		// the compressed source is consumed by an unspecified amount
 		np := vc.freshS(SBV64, "zpos")
-		vc.assume(and(app("bvsle", pos, np), app("bvsle", np, sel("Send", src))))
+		vc.assume(implies(c.n.Reach, and(app("bvsle", pos, np), app("bvsle", np, sel("Send", src)))))
 		st.H["Spos"] = vc.def(stateSorts["Spos"], sto(st.H["Spos"], src, np), "Spos")
 		err := vc.freshError(st, "zerr")
 		c.setFail(src, isErr(err))
